@@ -145,6 +145,11 @@ def roundtrip_oracle(case, impl, readback=None):
     if c == 19 and 1 in last:
         return None      # req_group deliberately ORs further bits into the same mask
     for f, kind, acc in fields:
+        if acc is not None and f not in last and acc < len(vals) and kind in ("bool", "u8", "u4", "u4m", "u2", "u16", "u32"):
+            # a field that was never set reads as the creator's initial value (zero): setters must not disturb their neighbours
+            if vals[acc].lstrip("-").isdigit() and int(vals[acc]) != 0:
+                return {"kind": "a creator setter disturbed a neighbouring field: a field that was never set does not read back as its initial value",
+                        "creator": c, "untouched_field": f, "read": int(vals[acc]), "spec_output": "0"}
         if acc is None or f not in last:
             continue
         v = last[f]
